@@ -1,4 +1,4 @@
-use super::decoder::LF;
+use super::decoder::{CR, LF};
 use super::resp::{AdvanceIndex, ArrayIndex, BulkStrIndex, DataIndex, IndexedResp, RespIndex};
 use btoi::btoi;
 use bytes::BytesMut;
@@ -107,6 +107,11 @@ fn parse_bulk_str(buf: &[u8]) -> Result<(BulkStrIndex, usize), ParseError> {
         return Err(ParseError::NotEnoughData);
     }
 
+    // The content should be followed by CRLF.
+    if buf.get(consumed + content_size..consumed + content_size + 2) != Some(&b"\r\n"[..]) {
+        return Err(ParseError::InvalidProtocol);
+    }
+
     let s = DataIndex(consumed, consumed + content_size);
     Ok((BulkStrIndex::Str(s), consumed + content_size + 2))
 }
@@ -124,6 +129,10 @@ fn parse_len(buf: &[u8]) -> Result<(i64, usize), ParseError> {
 fn parse_line(buf: &[u8]) -> Result<(DataIndex, usize), ParseError> {
     let lf_index = memchr(LF, buf).ok_or(ParseError::NotEnoughData)?;
     if lf_index == 0 {
+        return Err(ParseError::InvalidProtocol);
+    }
+    // The line should end with CRLF.
+    if buf.get(lf_index - 1) != Some(&CR) {
         return Err(ParseError::InvalidProtocol);
     }
 
